@@ -41,7 +41,9 @@ def prefixes(ctx):
 
 
 TEXTS = ['', 'a', 'a{}', 'aä', 'ä€', '@charset "', '@charset "x', '@charset "utf-8";', '@charset "utf-8";aä', '@charset "iso-8859-1";ä',
-         '@charset "utf-16";x', '@chars', '@charsetx', '﻿a', '@charset "utf-8-sig";a', '@charset "utf_8_sig";a', '@charset "x";@charset "y";', '@CHARSET "x";a', '@Charset "utf-8";ä', '@charset  "x";a']
+         '@charset "utf-16";x', '@chars', '@charsetx', '﻿a', '@charset "utf-8-sig";a', '@charset "utf_8_sig";a', '@charset "x";@charset "y";', '@CHARSET "x";a', '@Charset "utf-8";ä', '@charset  "x";a',
+         # long (IANA style) names: the closing quote sits beyond the first two dozen bytes
+         '@charset "iso_8859-1:1987";ä', '@charset "csisolatincyrillic";a', '@charset "windows-1252";ä{}']
 ENCODINGS = ['utf-8', 'utf-8-sig', 'utf-16', 'utf-16-le', 'utf-16-be', 'utf-32', 'utf-32-le', 'utf-32-be', 'iso-8859-1', 'cp1252']
 
 
